@@ -31,13 +31,17 @@ RULE = ("single spec {m:SPEC}: every (min,max) in {absent,0,1,2,3,5}^2 (incl. mi
         "ZWJ, VS16); default-fill / default-alignment spellings ({m:5}, {m:>5}, {m:.3}); then the nested "
         "family {({m:A}{l}):B} and random pattern trees (depth <= 3, groups of <= 3 items over {m}, {t}, "
         "{l}, literals, min<=max<=7) with random pieces (some empty), random target and random sink scripts "
-        "(entries 0..5, length <= 4). non-trivial = some spec has a width and the text it applies to is "
+        "(entries 0..5, length <= 4); a wide-column family: min widths {15,16,17,31,32,33,63,64,65,66,100,"
+        "127,128,129,200,255,256,257,1000} x both alignments x max absent / equal / min+1 / larger x ASCII, "
+        "syntax and multi-byte fills x empty, short and 70-character texts, max-only wide cuts, and nested "
+        "groups whose inner column is wider than 64 and is padded / cut again by one or two outer groups. "
+        "non-trivial = some spec has a width and the text it applies to is "
         "non-empty or min > 0; distinct = distinct case line")
 ASSUMPTIONS = [
     "the sink's write accepts between 1 and len bytes per call and never fails (Ok(0)/Err end the encode call with an error and are outside the property)",
     "text reaches the writers as whole &str pieces (safe Rust: fmt::Write::write_str / write_all of str bytes); sub-character splits arise only from short writes of the sink, which are covered",
     "set_style calls carry no text and are not exercised (no {h(..)} in the generated patterns)",
-    "explicit widths <= 7 in the correspondence run (theorems are for all widths)",
+    "explicit widths in the correspondence run are <= 7 in the exhaustive/random families and selected values up to 1000 (around 16, 32, 64, 128, 256) in the wide-column family; the theorems are for all widths",
     "cases with min > max (outside the property's quantifier) are compared with the model (which pads, then truncates, like the code) and checked for valid UTF-8 and at most max characters, but not against the law fit",
 ]
 TRUSTED = ["the sink oracle of Model/Width.v (1 <= accepted <= offered, infallible) and std's write_all / fmt adapter behaviour modelled from their documentation"]
@@ -160,6 +164,7 @@ def cases(rng, tier):
                 for al in (0, 1, 2):
                     out.append(single(rng.choice(SCRIPTS), pieces, [mn, mx, al, ""]))
                     idx += 1
+    out += wide_cases(rng, thorough)
     # nested family {({m:A}{l}):B}
     for _ in range(20000 if thorough else 3000):
         t = rand_text(rng, 0, 5)
@@ -174,6 +179,52 @@ def cases(rng, tier):
     return out
 
 
+WIDE = [15, 16, 17, 31, 32, 33, 63, 64, 65, 66, 100, 127, 128, 129, 200, 255, 256, 257, 1000]
+WIDE_FILLS = ["", " ", "~", "0", "}", "\u00e9", "\U0001d11e", "\u0301"]
+WIDE_TEXTS = [[], ["a"], ["ab", "c"], ["\u00ff"], ["\U0010ffff", "a\u0301"], ["0123456789"],
+              ["x" * 40, "y" * 30], ["\u20ac" * 70], ["ab" * 33, "\U0001d11e" * 3]]
+
+
+def wide_cases(rng, thorough):
+    """wide columns: pads and cuts far beyond any internal buffer size (64, 128, 256 ...)"""
+    out = []
+    for w in WIDE:
+        for al in (1, 2):
+            for mxk in ("absent", "equal", "larger", "plus1"):
+                mx = {"absent": 0, "equal": w + 1, "larger": w + 1 + rng.range(2, 70), "plus1": w + 2}[mxk]
+                fills = WIDE_FILLS if thorough else [rng.choice(WIDE_FILLS[:5]), rng.choice(WIDE_FILLS[5:])]
+                for fill in fills:
+                    texts = WIDE_TEXTS if thorough else [WIDE_TEXTS[0], rng.choice(WIDE_TEXTS[1:6]), rng.choice(WIDE_TEXTS[6:])]
+                    for pieces in texts:
+                        a = al if fill else rng.choice([0, al])
+                        if a == 0 and fill:
+                            a = al
+                        out.append(single(rng.choice(SCRIPTS), list(pieces), [w + 1, mx, a, fill]))
+        # max only: a long text cut at a wide column
+        for pieces in WIDE_TEXTS[6:]:
+            out.append(single(rng.choice(SCRIPTS), list(pieces), [0, w + 1, 0, ""]))
+    # nested: the inner group's output is wider than 64 and is cut / padded again by the outer one
+    for _ in range(1500 if thorough else 250):
+        wi, wo = rng.choice(WIDE), rng.choice(WIDE)
+        if rng.chance(1, 3):
+            wo = wi + rng.range(-2, 70)
+        inner = [wi + 1, rng.choice([0, 0, wi + 1, wi + 1 + rng.range(1, 9)]), rng.range(1, 2), rng.choice(WIDE_FILLS[1:])]
+        omax = rng.choice([0, 0, wo + 1, wo + 1 + rng.range(1, 9)])
+        outer = [rng.choice([0, wo + 1, wo + 1]), omax, rng.range(1, 2), rng.choice(WIDE_FILLS[1:])]
+        if not outer[0] and not outer[1]:
+            outer[0] = wo + 1
+        body = [[0, inner]]
+        if rng.chance(1, 2):
+            body.append([3, [rng.choice([0, 6, 71]), 0, rng.range(1, 2), rng.choice(WIDE_FILLS[1:])]])
+        if rng.chance(1, 3):
+            body.insert(0, [1, rng.choice(["-", "\u00e9:", "x" * 10])])
+        items = [[4, outer, body]]
+        if rng.chance(1, 3):
+            items = [[4, [rng.choice(WIDE) + 1, 0, rng.range(1, 2), rng.choice(WIDE_FILLS[1:])], items]]
+        out.append([rand_script(rng), list(rng.choice(WIDE_TEXTS)), "tgt", items])
+    return out
+
+
 def corpus():
     # the patterns named in the design; short writes; min > max
     return [
@@ -182,6 +233,9 @@ def corpus():
         [[2], ["é€", "\U0001d11ea"], "t", [[4, [7, 5, 2, ""], [[0, [0, 4, 0, ""]], [3, list(NOP)]]]]],  # {({m:.3}{l}):>6.4}
         [[1], ["éa"], "t", [[0, [0, 2, 0, ""]]]],                    # cut right after a short-written char
         [[], ["abc"], "t", [[0, [6, 3, 1, "~"]]]],                        # min > max
+        [[], [], "t", [[0, [66, 0, 1, ""]]]],                             # {m:<65} on an empty message
+        [[3], ["0123456789"], "t", [[0, [101, 0, 2, "~"]]]],              # {m:~>100}
+        [[], ["a"], "t", [[4, [131, 201, 2, "0"], [[0, [71, 0, 1, "~"]], [3, list(NOP)]]]]],  # {({m:~<70}{l}):0>130.200}
     ]
 
 
